@@ -185,3 +185,48 @@ def hook_summary(ix, ci, method, consts=None, args=None, partial=False):
     ki.partial = partial
     k = ki.run(fi, args)
     return ki, k
+
+
+def _sum_by_group_handler(ki, e, st):
+    """_sum_by_group(use_numba, indices, *values) -> [unique indices, group sums ...] as opaque applications"""
+    from .kernelir import MaskedView
+    args = [ki.eval(a, st) for a in e.args[1:]]
+    masks = {repr(a.mask.key()) for a in args if isinstance(a, MaskedView)}
+    if len(masks) > 1 or (masks and not all(isinstance(a, MaskedView) or not hasattr(a, "cases") for a in args)):
+        if len(masks) > 1:
+            raise Unsupported("_sum_by_group arguments selected by different masks")
+    mk = [Poly.sym("mask", sorted(masks)[0])] if masks else []
+    idx = ki._as_num(args[0])
+    out = [idx.map1(lambda p: apply_fn_("groupkeys", [p] + mk))]
+    for v in args[1:]:
+        v = ki._as_num(v)
+        out.append(v.map2(idx, lambda a, b: apply_fn_("groupsum", [a, b] + mk)))
+    return out
+
+
+def apply_fn_(name, args):
+    from .algebra import apply_fn
+    return apply_fn(name, args)
+
+
+_old_hook_handlers = hook_handlers
+
+
+def hook_handlers():
+    h = _old_hook_handlers()
+    h["_sum_by_group"] = _sum_by_group_handler
+    return h
+
+
+def pit_cols(ki, pit="branch_pit", own_only=True):
+    return {k[3]: v for k, v in ki.pit.items() if k[0] == pit and (k[1] == "i" or not own_only)}
+
+
+def component(ix, name):
+    for c in ix.components():
+        if c.name == name:
+            return c
+    for c in ix.all_classes():
+        if c.name == name:
+            return c
+    raise AnalysisError("component class %s vanished" % name)
